@@ -67,6 +67,7 @@ def operand_opcodes(F, vm, sb):
 def run(F, R, ctx):
     _run(F, R, ctx)
     rest_collapse_rule(F, R)
+    opcode_rewrite_rule(F, R)
 
 
 def _run(F, R, ctx):
@@ -396,3 +397,63 @@ def rest_collapse_rule(F, R):
                    "wrong stack slots (stale values of the previous activation)" % fn.short(),
                    fn.loc(fn.blocks[a].get("line")), sample=True)
     R.floor("C01.v", "rest-argument collapse sites", sites, 4 if "jit2" in (F.meta.get("features") or []) else 2)
+
+
+def opcode_rewrite_rule(F, R):
+    from . import c07
+    R.rule("C01.w", "call sites are rewritten to a specialised opcode under the same arity condition everywhere (sibling "
+                    "agreement inside compiler::program::convert_call_globals): for every opcode that some rewrite site stores "
+                    "into Instruction.op_code only after testing the call's argument count (every path to the store passes the "
+                    "true edge of `arity == n`), every other rewrite site of that opcode does too — a site without the test "
+                    "turns a call with the wrong number of arguments (in tail position, say) into a fixed-arity opcode, which "
+                    "then consumes the wrong stack slots instead of raising an arity error")
+    fn = F.one(r"^steel::compiler::program::convert_call_globals$")
+    maps = c07._backward(fn)
+    # arity tests: bool switches whose condition is `x == const` with x computed from a to_usize() of the payload
+    tests = []
+    eqs = {}
+    for blk in fn.blocks:
+        for e in blk["e"]:
+            if e[0] == "der" and len(e) >= 5 and e[3] == "Eq":
+                eqs.setdefault(e[1], set()).update(lib.TOK.findall(lib._norm(e[2])))
+    for i, blk in enumerate(fn.blocks):
+        if blk["k"] != "switch" or blk["on"] != "bool" or blk.get("c"):
+            continue
+        loc = re.match(r"_\d+", blk.get("place", "").strip("()*"))
+        if not loc:
+            continue
+        conds = [loc.group(0)] + [x for x in c07._origins(fn, loc.group(0), maps, depth=4) if x in eqs]
+        hit = False
+        for c_ in conds:
+            for t in eqs.get(c_, ()):
+                org = c07._origins(fn, t, maps)
+                if any(o.split(".")[0] in maps[2] and re.search(r"::to_usize$", maps[2][o.split(".")[0]]["callee"]) for o in org):
+                    hit = True
+        if hit:
+            true_t = blk["otherwise"]
+            tests.append(true_t)
+    if len(tests) < 6:
+        raise CheckError("anchor lost: arity tests in convert_call_globals (%d)" % len(tests))
+    sites = {}
+    for i, _, e in fn.events("fld"):
+        if e[1] == "Instruction" and e[2] == "op_code" and e[3][0] in "wm":
+            ops = [x[2].split("::")[-1] for x in fn.blocks[i]["e"] if x[0] == "kv" and x[2].startswith("variant:OpCode::")]
+            for op in ops:
+                sites.setdefault(op, []).append(i)
+    R.floor("C01.w", "opcode rewrite sites", sum(len(v) for v in sites.values()), 15)
+    for op, blocks in sorted(sites.items()):
+        guarded = {}
+        for b in blocks:
+            ok, _ = fn.every_path_passes_from([0], [b], tests)
+            guarded[b] = ok
+        if not any(guarded.values()):
+            R.inst("C01.w", "opcode %s: no site is arity-conditional (nothing to agree on)" % op, True, nontrivial=False)
+            continue
+        for k, b in enumerate(sorted(blocks)):
+            R.inst("C01.w", "opcode %s: rewrite site #%d tests the argument count like its siblings" % (op, k), guarded[b],
+                   "convert_call_globals rewrites a call into OpCode::%s at line %s without the `arity == n` test that "
+                   "another rewrite site of the same opcode has: a call with the wrong number of arguments at this kind of "
+                   "site is compiled to the fixed-arity opcode — e.g. (define (f) (cons 1 2 3)) returns (2 . 3), and "
+                   "(define (f) (cons 1)) panics the host in the CONS handler — instead of an arity error" % (
+                       op, fn.blocks[b].get("line") or [x[3] for x in fn.blocks[b]["e"] if x[0] == "agg"][:1]),
+                   fn.loc(), sample=True)
